@@ -14,7 +14,7 @@ func init() {
 // a request frame for the server: valid ones of each function, unsupported codes, illegal quantities,
 // inconsistent byte counts
 func serverFrame(rng *rand.Rand, class int) []byte {
-	tid := rng.Intn(65536)
+	tid := tidv(rng)
 	unit := u8(rng)
 	switch class {
 	case 0: // valid request of a supported function (FC17 rarely: the classifier rejects it, known finding)
@@ -208,6 +208,10 @@ func genC16(tier string, rng *rand.Rand, shard, nshards int, emit emitter) {
 		for _, t := range []string{"- c1;c2;p1.1;q2.2;c3;q3.3", "- c1;p1.4;c2;q2.6;d2", "- c1;c2;q1.1;p2.2;q1.3;p1.4;c3;q3.5;sh;j"} {
 			emit("srv " + cfg + " " + t)
 		}
+		// malformed / unfinished input of one connection must not disturb the connections accepted after it ended
+		for _, t := range srvTemplatesC15 {
+			emit("srv " + cfg + " " + t)
+		}
 	}
 	// requests that arrive in pieces, pipelined requests (judged like C15: the same single reply, nothing for a part)
 	genC15("sample", rng, shard, nshards, emit)
@@ -221,9 +225,9 @@ func genC16(tier string, rng *rand.Rand, shard, nshards int, emit emitter) {
 			}
 			var f []byte
 			if isSupported(fc) {
-				f = mbapFrame(rng.Intn(65536), u8(rng), validRequestPDU(rng, fc))
+				f = mbapFrame(tidv(rng), u8(rng), validRequestPDU(rng, fc))
 			} else {
-				f = mbapFrame(rng.Intn(65536), u8(rng), append([]byte{byte(fc)}, rbytes(rng, 4)...))
+				f = mbapFrame(tidv(rng), u8(rng), append([]byte{byte(fc)}, rbytes(rng, 4)...))
 			}
 			emit(fmt.Sprintf("asm %s %s", h, hx(f)))
 		}
